@@ -1173,6 +1173,47 @@ func c03Scoping(c *Ctx, load *ssa.Call, storesIdx int, tag string) {
 				}
 			}
 		}
+		// Class "several parameters bundled into a struct / state struct" (fifth pass): a statement field is also handed to module
+		// code when T stores it into a field of an object of an unexported module struct type (a parameter object filled by a
+		// literal or field by field, the receiver's state): the type is unexported and declared in the module, so only module code
+		// can read that field — the same "handed to module code" the call-argument form stands for. The clause itself is
+		// unchanged and decided on the same values: every such store must be of a field of the selected statement S (a field of
+		// any other statement stored anywhere by T — whatever the destination — is foreign), and all four fields (or the whole
+		// statement) must leave T one way or the other. Where the bundled list ends up is not decided here: the loader's list is
+		// followed upwards through the object's field by c03StoresSources (union over everything the module stores into it).
+		for _, b := range T.Blocks {
+			for _, in := range b.Instrs {
+				st, isSt := in.(*ssa.Store)
+				if !isSt {
+					continue
+				}
+				c.Evals++
+				toModuleObj := false
+				if fa, isFA := st.Addr.(*ssa.FieldAddr); isFA && c03ObjType(w, fa.X.Type()) != nil {
+					toModuleObj = true
+				}
+				if c03IsStatementType(st.Val.Type()) && c03StmtBase(st.Val) == S {
+					if toModuleObj {
+						whole = true
+					}
+					continue
+				}
+				base, name, ok := c03StmtFieldOf(st.Val)
+				if !ok {
+					continue
+				}
+				if c03StmtBase(base) == S {
+					if toModuleObj {
+						have[name] = true
+					}
+				} else {
+					switch name {
+					case "Name", "TrustStores", "TrustedIdentities", "SignatureVerification":
+						foreign = append(foreign, name+" of "+trunc(desc(base), 80)+" (stored)")
+					}
+				}
+			}
+		}
 		have["TrustStores"] = true
 		var missing []string
 		for _, f := range []string{"Name", "TrustStores", "TrustedIdentities", "SignatureVerification"} {
@@ -2170,4 +2211,430 @@ func c03NameSubject(w *World, G *ssa.Function, name ssa.Value, nameD string) (li
 		}
 	}
 	return c03Input{}, "", nil, false
+}
+
+// ---------- fifth pass: the parts of a listed entry as values, whoever cut it ---------------------------------------------------
+//
+// Class "extract-helper at a different boundary / several results bundled into a struct / result built by a constructor": the
+// split of a listed entry `<type>:<name>` and the separator test may live in a parse helper that hands back the two parts — as
+// several results, as a struct (by value or by pointer), next to an error or an ok flag, with guard clauses or a single exit. The
+// loader obligations are stated on *parts*: a value is part k of the entry s (k = 0: what precedes the first ':', 1: what follows
+// it) when it is that result of strings.Cut(s, ":") (or the equivalent Index + slice), or when it is a component (result i, field
+// f) of the value of a call of a module helper H and on every success-capable exit of H that component is part k of one and the
+// same parameter of H, for which the call passes s. Such a part is only meaningful when the helper succeeded: the helper's verdict
+// (err == nil / ok) is a *gate* that must guard every use, and what every success-capable exit of the helper must have passed (in
+// particular: separator found) holds behind the gate — composed into the caller's frame like the engine does for `err == nil`.
+// Since strings.Cut is a function of its argument, "part 0 of s" and "part 1 of s" belong to the same split whoever computed them.
+
+type c03Part struct {
+	s     ssa.Value         // the string that was cut, a value of the function the part is used in
+	k     int               // 0: before the first ':', 1: after it
+	gates []string          // labels (that function's frame) that must guard a use: the helper calls that delivered the part succeeded
+	facts map[string]string // what holds whenever the gates are passed (composed from the helpers' success-capable exits)
+}
+
+func c03StripConv(v ssa.Value) ssa.Value {
+	for {
+		switch x := v.(type) {
+		case *ssa.ChangeType:
+			v = x.X
+			continue
+		case *ssa.Convert:
+			if bs, ok := x.X.Type().Underlying().(*types.Basic); ok && bs.Info()&types.IsString != 0 {
+				if bd, ok := x.Type().Underlying().(*types.Basic); ok && bd.Info()&types.IsString != 0 {
+					v = x.X
+					continue
+				}
+			}
+		}
+		return v
+	}
+}
+
+func c03IsColonConst(k ssa.Value) bool {
+	c, ok := k.(*ssa.Const)
+	if !ok || c.Value == nil {
+		return false
+	}
+	s := constString(c)
+	return s == `":"` || s == "58"
+}
+
+// c03BeforeColon: v is "the part of s before the first ':'": the first result of strings.Cut(s, ":"), or s[:i] with
+// i = strings.Index(s, ":") / IndexByte / IndexRune of the same s. Returns s.
+func c03BeforeColon(v ssa.Value) ssa.Value {
+	switch x := v.(type) {
+	case *ssa.Extract:
+		call, ok := x.Tuple.(*ssa.Call)
+		if ok && x.Index == 0 && calleeName(call) == "strings.Cut" && len(call.Call.Args) == 2 && c03IsColonConst(call.Call.Args[1]) {
+			return call.Call.Args[0]
+		}
+	case *ssa.Slice:
+		if x.Low != nil || x.Max != nil || x.High == nil {
+			return nil
+		}
+		call, ok := x.High.(*ssa.Call)
+		if !ok || len(call.Call.Args) != 2 || !c03IsColonConst(call.Call.Args[1]) {
+			return nil
+		}
+		switch calleeName(call) {
+		case "strings.Index", "strings.IndexByte", "strings.IndexRune":
+			if call.Call.Args[0] == x.X || desc(call.Call.Args[0]) == desc(x.X) {
+				return x.X
+			}
+		}
+	}
+	return nil
+}
+
+// c03ResultComponent: v is component (result i, field f; f < 0: the result itself) of the value of the call hc — read directly,
+// through the local the result was assigned to (stored once, before the read, no field of it written), or through the pointer
+// the call returned (byPtr).
+func c03ResultComponent(v ssa.Value) (hc *ssa.Call, i, f int, byPtr, ok bool) {
+	whole := func(x ssa.Value) (*ssa.Call, int, bool) {
+		switch y := x.(type) {
+		case *ssa.Call:
+			if _, isTuple := y.Type().(*types.Tuple); !isTuple {
+				return y, 0, true
+			}
+		case *ssa.Extract:
+			if call, isCall := y.Tuple.(*ssa.Call); isCall {
+				return call, y.Index, true
+			}
+		}
+		return nil, 0, false
+	}
+	// the local a result was assigned to
+	cell := func(a *ssa.Alloc, at ssa.Instruction) (*ssa.Call, int, bool) {
+		sv := singleStore(a)
+		if sv == nil || a.Referrers() == nil {
+			return nil, 0, false
+		}
+		for _, r := range *a.Referrers() {
+			if st, isSt := r.(*ssa.Store); isSt && st.Addr == ssa.Value(a) && !c03Precedes(st, at) {
+				return nil, 0, false
+			}
+		}
+		return whole(sv)
+	}
+	if c, k, isW := whole(v); isW {
+		return c, k, -1, false, true
+	}
+	switch x := v.(type) {
+	case *ssa.Field:
+		if c, k, isW := whole(x.X); isW {
+			return c, k, x.Field, false, true
+		}
+		if ld, isLd := x.X.(*ssa.UnOp); isLd && ld.Op == token.MUL {
+			if a, isA := ld.X.(*ssa.Alloc); isA {
+				if c, k, isC := cell(a, ld); isC {
+					return c, k, x.Field, false, true
+				}
+			}
+		}
+	case *ssa.UnOp:
+		if x.Op != token.MUL {
+			break
+		}
+		switch a := x.X.(type) {
+		case *ssa.Alloc:
+			if c, k, isC := cell(a, x); isC {
+				return c, k, -1, false, true
+			}
+		case *ssa.FieldAddr:
+			if al, isA := a.X.(*ssa.Alloc); isA {
+				if c, k, isC := cell(al, x); isC {
+					return c, k, a.Field, false, true
+				}
+			}
+			if c, k, isW := whole(a.X); isW {
+				return c, k, a.Field, true, true
+			}
+		}
+	}
+	return nil, 0, 0, false, false
+}
+
+// c03ReturnedField: the value field f of the object rv holds when `ret` returns it (entered through the edge from `pred` when the
+// exit is split edge by edge, pred == nil otherwise). rv is a load of a local object of an unexported module struct type (returned
+// by value) or the address of such an object created in this function (returned by pointer): every use of the object's address
+// is a field store / field load, a load of the whole object, or a return; the field is stored exactly once and that store comes
+// before the return on every path that takes this exit (it dominates the return, or the block the edge comes from).
+func c03ReturnedField(w *World, rv ssa.Value, f int, ret *ssa.Return, pred *ssa.BasicBlock) (ssa.Value, bool) {
+	var al *ssa.Alloc
+	var at ssa.Instruction = ret
+	if ld, ok := rv.(*ssa.UnOp); ok && ld.Op == token.MUL {
+		al, _ = ld.X.(*ssa.Alloc)
+		at = ld // the copy that is returned is taken here
+	} else {
+		al, _ = rv.(*ssa.Alloc)
+	}
+	if al == nil || al.Parent() != ret.Parent() || al.Referrers() == nil || c03ObjType(w, al.Type().Underlying().(*types.Pointer).Elem()) == nil {
+		return nil, false
+	}
+	var st *ssa.Store
+	for _, r := range *al.Referrers() {
+		switch y := r.(type) {
+		case *ssa.DebugRef, *ssa.UnOp, *ssa.Return:
+		case *ssa.FieldAddr:
+			if y.Referrers() == nil {
+				continue
+			}
+			for _, rr := range *y.Referrers() {
+				switch z := rr.(type) {
+				case *ssa.UnOp, *ssa.DebugRef:
+				case *ssa.Store:
+					if z.Addr != ssa.Value(y) {
+						return nil, false
+					}
+					if y.Field == f {
+						if st != nil {
+							return nil, false
+						}
+						st = z
+					}
+				default:
+					return nil, false
+				}
+			}
+		default:
+			return nil, false
+		}
+	}
+	if st == nil {
+		return nil, false
+	}
+	if c03Precedes(st, at) {
+		return st.Val, true
+	}
+	if pred != nil && at.Block() == ret.Block() && (st.Block() == pred || st.Block().Dominates(pred)) {
+		return st.Val, true
+	}
+	return nil, false
+}
+
+// c03HelperExit is one success-capable way out of a helper: the values it returns and the facts that hold on every path to it
+// (helper's frame). A return whose operands are phis of its own block is split edge by edge (single exit with locals).
+type c03HelperExit struct {
+	ret   *ssa.Return
+	pred  *ssa.BasicBlock // the edge this exit is entered through when the return is split edge by edge, nil otherwise
+	vals  []ssa.Value
+	facts map[string]string
+}
+
+// c03HelperExits: the success-capable exits of the module helper called by hc, and the label that, in the caller's frame, says
+// that the helper succeeded (the gate): `err == nil` when the helper's last result is an error, the flag itself when it is a
+// bool; "" when the helper has no verdict (every exit then counts).
+func c03HelperExits(w *World, hc *ssa.Call) (H *ssa.Function, gate string, exits []c03HelperExit, ok bool) {
+	H = staticCallee(hc)
+	if H == nil || H.Blocks == nil || !w.IsProductFn(H) || len(hc.Call.Args) != len(H.Params) {
+		return nil, "", nil, false
+	}
+	rs := H.Signature.Results()
+	n := rs.Len()
+	if n == 0 {
+		return nil, "", nil, false
+	}
+	verdict := 0 // 1: error, 2: bool
+	if n > 1 {
+		if isErrorType(rs.At(n - 1).Type()) {
+			verdict = 1
+			gate = "EQ(" + res(hc, n-1) + ",nil)"
+		} else if isBoolType(rs.At(n - 1).Type()) {
+			verdict = 2
+			gate = "T(" + res(hc, n-1) + ")"
+		}
+	}
+	hfi := w.Info(H)
+	for _, b := range H.Blocks {
+		r, isR := blockTerm(b).(*ssa.Return)
+		if !isR || len(r.Results) != n {
+			continue
+		}
+		split := false
+		for _, rv := range r.Results {
+			if p, isPhi := rv.(*ssa.Phi); isPhi && p.Block() == b {
+				split = true
+			}
+		}
+		preds := []int{-1}
+		if split {
+			preds = preds[:0]
+			for i := range b.Preds {
+				preds = append(preds, i)
+			}
+		}
+		for _, pi := range preds {
+			ex := c03HelperExit{ret: r, facts: map[string]string{}}
+			for _, rv := range r.Results {
+				if p, isPhi := rv.(*ssa.Phi); isPhi && p.Block() == b && pi >= 0 {
+					rv = p.Edges[pi]
+				}
+				ex.vals = append(ex.vals, rv)
+			}
+			switch verdict {
+			case 1:
+				if cl, _, _, _ := hfi.classify(r, state{b.Index, 0, pi}, Mode{Kind: mErr}); cl == clFail {
+					continue
+				}
+			case 2:
+				if k, isK := ex.vals[n-1].(*ssa.Const); isK && constString(k) == "false" {
+					continue
+				}
+			}
+			if pi >= 0 {
+				ex.pred = b.Preds[pi]
+				ex.facts = c03EdgeFacts(hfi, b, pi)
+			} else if b.Index != 0 {
+				if l, reach := hfi.mustPassBetween([]int{0}, map[int]bool{b.Index: true}); reach {
+					ex.facts = c03CopyLabels(l)
+				} else {
+					continue // unreachable exit
+				}
+			}
+			exits = append(exits, ex)
+		}
+	}
+	return H, gate, exits, len(exits) > 0
+}
+
+// c03PartOf: v is part k of the entry s (see the class comment above). Soundness of the helper case: the part is read from the
+// value the call returned; on every exit of the helper that can deliver a success verdict the component is part k of the helper's
+// parameter p (decided recursively, the helper's own gates being facts of that exit), so whenever the caller has passed the gate
+// the component is part k of the argument passed for p, and the facts common to those exits hold. Exits that cannot deliver a
+// success verdict do not matter because the gate must guard the use.
+func c03PartOf(w *World, v ssa.Value, depth int) (c03Part, bool) {
+	if depth > 2 {
+		return c03Part{}, false
+	}
+	v = c03StripConv(v)
+	if s := c03AfterColon(v); s != nil {
+		return c03Part{s: s, k: 1}, true
+	}
+	if s := c03BeforeColon(v); s != nil {
+		return c03Part{s: s, k: 0}, true
+	}
+	hc, i, f, byPtr, ok := c03ResultComponent(v)
+	if !ok {
+		return c03Part{}, false
+	}
+	H, gate, exits, ok := c03HelperExits(w, hc)
+	if !ok {
+		return c03Part{}, false
+	}
+	if byPtr && (f < 0 || !c03FieldSetOnlyOnFresh(w, H.Signature.Results().At(i).Type(), f)) {
+		return c03Part{}, false // somebody may write the field through the pointer after the helper returned
+	}
+	names := make([]string, len(H.Params))
+	descs := make([]string, len(H.Params))
+	for j, p := range H.Params {
+		names[j] = p.Name()
+		descs[j] = desc(hc.Call.Args[j])
+	}
+	out := c03Part{k: -1}
+	pidx := -1
+	var common map[string]string
+	for _, ex := range exits {
+		if i >= len(ex.vals) {
+			return c03Part{}, false
+		}
+		rv := ex.vals[i]
+		if f >= 0 {
+			fv, okF := c03ReturnedField(w, rv, f, ex.ret, ex.pred)
+			if !okF {
+				return c03Part{}, false
+			}
+			rv = fv
+		}
+		pt, okP := c03PartOf(w, rv, depth+1)
+		if !okP {
+			return c03Part{}, false
+		}
+		p, isP := c03StripConv(pt.s).(*ssa.Parameter)
+		if !isP || p.Parent() != H || c03ParamIndex(p) < 0 {
+			return c03Part{}, false
+		}
+		for _, g := range pt.gates {
+			if !labelHas(ex.facts, g) {
+				return c03Part{}, false // the inner helper's verdict is not tested on the way to this exit
+			}
+		}
+		if (pidx >= 0 && pidx != c03ParamIndex(p)) || (out.k >= 0 && out.k != pt.k) {
+			return c03Part{}, false // exits disagree on what they deliver
+		}
+		pidx, out.k = c03ParamIndex(p), pt.k
+		facts := map[string]string{}
+		for l, site := range c03CopyLabels(ex.facts, pt.facts) {
+			facts[substParams(l, names, descs)] = site
+		}
+		if common == nil {
+			common = facts
+		} else {
+			for l := range common {
+				if _, both := facts[l]; !both {
+					delete(common, l)
+				}
+			}
+		}
+	}
+	if pidx < 0 || out.k < 0 {
+		return c03Part{}, false
+	}
+	out.s = hc.Call.Args[pidx]
+	if gate != "" {
+		out.gates = []string{gate}
+	}
+	out.facts = common
+	return out, true
+}
+
+// c03SameEntry: two parts were cut from the same listed entry.
+func c03SameEntry(a, b ssa.Value) bool {
+	a, b = c03StripConv(a), c03StripConv(b)
+	return a == b || desc(a) == desc(b)
+}
+
+// c03TypeFilterOnValues: the load L is reached only when the loader's wanted-type input equals part 0 of the entry the name was
+// cut from, decided on values and paths: once the edges on which a comparison `input == part0(entry)` (either order, == or !=,
+// the part delivered under gates that guard L) turns out equal are removed, L must be unreachable — every path to L passes such an
+// edge. This is the must-pass rule of loader/type-filter without its dependence on how the comparison is printed (prefix held in
+// a struct field or a local).
+func c03TypeFilterOnValues(w *World, fi *FnInfo, L *ssa.Call, typeIn c03Input, entry ssa.Value, guards map[string]string) bool {
+	isPair := func(a, b ssa.Value) bool {
+		in, ok := c03InputOf(w, a)
+		if !ok || in != typeIn {
+			return false
+		}
+		pt, ok := c03PartOf(w, b, 0)
+		if !ok || pt.k != 0 || !c03SameEntry(pt.s, entry) {
+			return false
+		}
+		for _, g := range pt.gates {
+			if !labelHas(guards, g) {
+				return false
+			}
+		}
+		return true
+	}
+	cut := fi.edgesMatching(func(_ string, iff *ssa.If, truth bool) bool {
+		cond := iff.Cond
+		neg := false
+		for {
+			u, ok := cond.(*ssa.UnOp)
+			if !ok || u.Op != token.NOT {
+				break
+			}
+			neg, cond = !neg, u.X
+		}
+		bo, ok := cond.(*ssa.BinOp)
+		if !ok || (bo.Op != token.EQL && bo.Op != token.NEQ) {
+			return false
+		}
+		equal := (bo.Op == token.EQL) == truth
+		if neg {
+			equal = !equal
+		}
+		return equal && (isPair(bo.X, bo.Y) || isPair(bo.Y, bo.X))
+	})
+	return len(cut) > 0 && !fi.reachHit(entryState(), cut, map[int]bool{L.Block().Index: true})
 }
